@@ -247,7 +247,7 @@ def locate_ns(host: Union[str, ipaddress.IPv4Address, ipaddress.IPv6Address] = "
                         try:
                             sock.sendto(b"GET_NSURI", 0, (bcaddr, port))
                         except socket.error as x:
-                            err = getattr(x, "errno", x.args[0])
+                            err = getattr(x, "errno", None)
                             # handle some errno's that some platforms like to throw:
                             if err not in socketutil.ERRNO_EADDRNOTAVAIL and err not in socketutil.ERRNO_EADDRINUSE:
                                 raise
